@@ -93,6 +93,9 @@ CANARIES = [
     ('delete-marks-dirty-on-error', 'C01', 'src/bucket.rs', '                let current_id = last.id;\n                let index = last.index;\n                self.dirty = true;\n                let node = self.node(current_id, None);\n                let mut node = node.borrow_mut();\n                match node.delete(index) {', '                let current_id = last.id;\n                let index = last.index;\n                let node = self.node(current_id, None);\n                let mut node = node.borrow_mut();\n                match node.delete(index) {'),
     ('put-leaf-counts-replacements', 'C01', 'src/bucket.rs', '            Some(current)\n        } else {\n            self.meta.next_int += 1;\n            None\n        };', '            self.meta.next_int += 1;\n            Some(current)\n        } else {\n            self.meta.next_int += 1;\n            None\n        };'),
     ('put-leaf-bumps-before-kind-check', 'C01', 'src/bucket.rs', '            let current = page_node.val(last.index).unwrap();\n            if current.is_kv() != leaf.is_kv() {', '            let current = page_node.val(last.index).unwrap();\n            self.dirty = true;\n            if current.is_kv() != leaf.is_kv() {'),
+    ('open-no-lock', 'C13', 'src/db.rs', '        file.lock_exclusive()?;\n', ''),
+    ('open-lock-after-map', 'C13', 'src/db.rs', '        file.lock_exclusive()?;\n        let mmap = mmap(&file, flags.mmap_populate)?;\n', '        let mmap = mmap(&file, flags.mmap_populate)?;\n        file.lock_exclusive()?;\n'),
+    ('open-lock-error-ignored', 'C13', 'src/db.rs', '        file.lock_exclusive()?;\n', '        let _ = file.lock_exclusive();\n'),
     # tree layer outside the verifier's reach: these are for the BOUNDED stand-ins that run in the quick tier
     ('tree-merge-leaves-unsorted', 'C01', 'src/node.rs', '                l1.append(l2);\n                l1.sort_unstable_by_key(|l| l.key_bytes());', '                l1.append(l2);'),
     ('tree-split-drops-boundary', 'C01', 'src/node.rs', '            NodeData::Leaves(l) => NodeData::Leaves(l.split_off(index)),', '            NodeData::Leaves(l) => { let mut r = l.split_off(index); if r.len() > 2 { r.remove(0); } NodeData::Leaves(r) }'),
